@@ -13,6 +13,7 @@ import (
 	"time"
 
 	"github.com/ipld/go-storethehash/store"
+	"github.com/ipld/go-storethehash/store/vhook"
 	"pgregory.net/rapid"
 )
 
@@ -24,6 +25,9 @@ type RaceCase struct {
 	Rounds  int       `json:"rounds"`
 	SyncUS  int       `json:"sync_us"`
 	GCUS    int       `json:"gc_us"`
+	// BackPressure: BurstRate(0) and a pinned tiny flush rate, so that every
+	// write takes the waiting path of the rate limiter.
+	BackPressure bool `json:"back_pressure,omitempty"`
 }
 
 const (
@@ -69,6 +73,7 @@ func genRace(t *rapid.T) RaceCase {
 	c.Rounds = rapid.IntRange(3, 25).Draw(t, "rounds")
 	c.SyncUS = []int{200, 500, 1000, 3000}[rapid.IntRange(0, 3).Draw(t, "sync")]
 	c.GCUS = []int{200, 500, 1000, 3000, 0}[rapid.IntRange(0, 4).Draw(t, "gc")]
+	c.BackPressure = weighted(t, "backpressure", []int{3, 1}) == 1
 	return c
 }
 
@@ -95,11 +100,22 @@ func runRace(c RaceCase) {
 	if c.GCUS == 0 {
 		gcI = time.Hour // explicit callers only (GC must be enabled for them)
 	}
+	burst := uint64(1 << 40)
+	if c.BackPressure {
+		burst = 0
+	}
 	s, err := store.OpenStore(bg, c.Cfg.Primary, filepath.Join(dir, dataBase), filepath.Join(dir, idxBase), false,
 		store.IndexBitSize(c.Cfg.Bits), store.IndexFileSize(c.Cfg.IdxSize), store.PrimaryFileSize(c.Cfg.PrimSize), store.FileCacheSize(c.Cfg.FileCache),
-		store.GCInterval(gcI), store.GCTimeLimit(0), store.SyncInterval(time.Duration(c.SyncUS)*time.Microsecond), store.BurstRate(1<<40))
+		store.GCInterval(gcI), store.GCTimeLimit(0), store.SyncInterval(time.Duration(c.SyncUS)*time.Microsecond), store.BurstRate(burst))
 	if err != nil {
 		panic(infraError{err})
+	}
+	if c.BackPressure {
+		// Set before any other goroutine exists; the setter takes the rate
+		// lock and the pin is an atomic, so no ordering between the workers
+		// is introduced.
+		s.VerifPinFlushRate(1e-9)
+		defer vhook.PinRate(0)
 	}
 	s.Start()
 	var wg sync.WaitGroup
@@ -251,7 +267,7 @@ func TestC16(t *testing.T) {
 		// The detector writes the report before the racing goroutine goes on;
 		// everything of this case has finished, so the reports are complete.
 		reps := newReports()
-		ev.Record(c, raceNonTrivial(c), fmt.Sprintf("primary=%s", c.Cfg.Primary))
+		ev.Record(c, raceNonTrivial(c), fmt.Sprintf("primary=%s", c.Cfg.Primary), fmt.Sprintf("back-pressure=%v", c.BackPressure))
 		for _, r := range reps {
 			v := viol(r.sig, 0, "%s", r.text)
 			if len(v.Detail) > 3000 {
